@@ -63,6 +63,15 @@ CLAIMED = {
             "controls are non-repeating pre-solve sim-time controls toggling the run-time switch; that remove_leak clears everything.",
             "Leak term in the balance rows and tank demand is decided under C01. Timing itself is C04's mechanism. Not decided: solution values.",
             "DESIGN.md §4 C08"),
+    "C10": ("state inventory: loop-carried attributes of WNTRSimulator (assigned, item-assigned through aliases, or mutated by state-changing calls "
+            "inside run_sim's loop and the methods it calls) joined with the definitions reaching the loop on a continued run and classified as "
+            "model-derived vs constant; class-table scan for pickling hooks; guard analysis of prologue stores; CFG dominance for the exit / advance order",
+            "Decides the necessary structural clause: every piece of simulator state carried from one iteration to the next is re-derived from "
+            "the model when a new simulator continues a paused run (rule clock, isolated sets, internal graph, control managers, change tracker), "
+            "model-side run-time state lives in plain picklable attributes and is overwritten before the loop only on a first step, first_step is "
+            "sim_time == 0, and the loop leaves only after the time advance back to the hydraulic grid.",
+            "Does not decide numerical equality of concatenated results. 'Reads the model' is a syntactic criterion (mentions self._wn); that the "
+            "derivation is the right one was confirmed by experiment for the two repaired defects only.", "DESIGN.md §4 C10"),
     "C11": ("effect analysis: transitive attribute-write sets of both simulators over a name-and-receiver based call graph (sa/effects.py), compared "
             "with definition / run-time field sets derived from the class table to_dict walks; setattr targets resolved through "
             "ControlAction.__init__'s attribute map over every attribute string passed in the package; reset-coverage table comparison",
